@@ -581,7 +581,8 @@ def run_lists(case):
 @st.composite
 def strat_fir_(draw):
   b = draw(st.lists(_coef, min_size=1, max_size=7))
-  g = draw(st.one_of(st.none(), st.none(), st.sampled_from([1, -1, 2, 0.5, -4.0, 1.0])))
+  g = draw(st.one_of(st.none(), st.none(), st.sampled_from([1, -1, 2, 0.5, -4.0, 1.0]),
+                     st.sampled_from([Fraction(3, 4), Fraction(-2, 3), Fraction(1, 3), Fraction(5, 2)])))
   return {"f": {"b": b, "a": None if g is None else [g], "fam": "fir",
                 "route": draw(st.sampled_from(["Z", "Z", "L", "expr"]))},
           "w": draw(_w), "extra": draw(st.integers(0, 9)),
@@ -613,7 +614,11 @@ def run_time_dft(case):
   # products with 1.0 / 0.0 and sums with 0.0 are exact: h is b/g up to one division
   for k in range(n):
     t = (b[k] if k < len(b) else 0) / g if g not in (1, -1) else (b[k] if k < len(b) else 0) * g
-    if h[k] != t:
+    if isinstance(g, Fraction):
+      # the gain is printed as n/d and evaluated in double: one more rounding
+      if abs(h[k] - float(t)) > 8 * U * abs(float(t)):
+        raise Violation("impulse response sample %d is %r, coefficient / gain is %r (gain %r)" % (k, h[k], float(t), g))
+    elif h[k] != t:
       raise Violation("impulse response sample %d is %r, coefficient is %r" % (k, h[k], t))
   H = filt.freq_response(w)
   check_value(H, "ok", ref, eps, "freq_response(%r)" % (w,))
